@@ -21,7 +21,8 @@ func XMultiSameMethod() *spec.Spec {
 
 // Extended returns the extended families (everything beyond the documented core combinations).
 func Extended(thorough bool) []*spec.Spec {
-	out := []*spec.Spec{XMultiSameMethod(), XCrossFile(), XTwoServiceFiles(), XTimestampCards(), XTimestampCardsFmt(), XEmptyOrders(), XOneofSiblings(), XSharedMethodHeader(), XQuotedHeaderTexts(), XQuotedAnnotationValues(), XForeignResponse(), XSameNamedNestedEnums(), XOneofVariantShapes(), XInt64Cards(), XHeaderNameShapes(), XParamNameClashes(), XHeaderOverrideShapes(), XUnwrapWrapperShapes(), XProto2Basic(), XSharedTypesAcrossServiceFiles(), XHeaderTypeFormat(), XNestedAnnotated(), XHeaderSpellingTypes()}
+	out := []*spec.Spec{XMultiSameMethod(), XCrossFile(), XTwoServiceFiles(), XTimestampCards(), XTimestampCardsFmt(), XEmptyOrders(), XOneofSiblings(), XSharedMethodHeader(), XQuotedHeaderTexts(), XQuotedAnnotationValues(), XForeignResponse(), XSameNamedNestedEnums(), XOneofVariantShapes(), XInt64Cards(), XHeaderNameShapes(), XParamNameClashes(), XHeaderOverrideShapes(), XUnwrapWrapperShapes(), XProto2Basic(), XSharedTypesAcrossServiceFiles(), XHeaderTypeFormat(), XNestedAnnotated(), XHeaderSpellingTypes(), XUnwrapCycles(), XTwoGoPackages()}
+	out = append(out, XWellKnownPositions()...)
 	out = append(out, XAnnotationCards()...)
 	out = append(out, XIdentifierShapes()...)
 	out = append(out, CtxSpecs()...)
@@ -339,6 +340,89 @@ func XHeaderNameShapes() *spec.Spec {
 	return withCell(spec.One("x_header_name_shapes", f), "ext/unit=header_name_shapes", "extended", "valid")
 }
 
+// XWellKnownPositions: well-known types other than Timestamp (Duration, a wrapper, Struct, Empty, FieldMask) in every structural
+// position a message type can take - plain, repeated and map-valued field, variant of a nested and of a flattened discriminated
+// oneof, value of a root map unwrap, element of a root list unwrap, request and response of an RPC. Generation-level unit: the
+// documents and packages must be complete and well-formed whatever mapping the generators choose for these types.
+func XWellKnownPositions() []*spec.Spec {
+	var out []*spec.Spec
+	for _, w := range []struct{ key, typ, imp string }{
+		{"duration", ".google.protobuf.Duration", "google/protobuf/duration.proto"},
+		{"string_value", ".google.protobuf.StringValue", "google/protobuf/wrappers.proto"},
+		{"struct", ".google.protobuf.Struct", "google/protobuf/struct.proto"},
+		{"empty", ".google.protobuf.Empty", "google/protobuf/empty.proto"},
+		{"field_mask", ".google.protobuf.FieldMask", "google/protobuf/field_mask.proto"},
+	} {
+		msgs := []*spec.Message{
+			spec.M("Other", spec.F("note", "string")),
+			spec.M("Fields", spec.F("id", "string"), spec.Msg("one", w.typ), spec.Msg("many", w.typ).Rep(), spec.Msg("by_key", w.typ).Map()),
+			spec.M("NestedVariant", spec.F("id", "string"), spec.Msg("wk", w.typ).In("choice"), spec.Msg("other", "Other").In("choice")).WithOneof(&spec.Oneof{Name: "choice", Config: true, Disc: "kind"}),
+			spec.M("PlainVariant", spec.F("id", "string"), spec.Msg("wk", w.typ).In("choice"), spec.Msg("other", "Other").In("choice")).WithOneof(&spec.Oneof{Name: "choice"}),
+			spec.M("RootMap", spec.Msg("entries", w.typ).Map().Unw()),
+			spec.M("RootList", spec.Msg("items", w.typ).Rep().Unw()),
+		}
+		svc := spec.Svc("WellKnownService", "/wk",
+			spec.RPC("EchoFields", "Fields", "Fields", "POST", "/fields"), spec.RPC("EchoNestedVariant", "NestedVariant", "NestedVariant", "POST", "/nested"),
+			spec.RPC("EchoPlainVariant", "PlainVariant", "PlainVariant", "POST", "/plain"), spec.RPC("GetRootMap", "Other", "RootMap", "POST", "/rootmap"),
+			spec.RPC("GetRootList", "Other", "RootList", "POST", "/rootlist"), spec.RPC("Direct", w.typ, w.typ, "POST", "/direct"))
+		f := &spec.File{Imports: []string{w.imp}, Messages: msgs, Services: []*spec.Service{svc}}
+		out = append(out, withCell(spec.One("x_wellknown_"+w.key, f), "wkt/type="+w.key, "extended", "valid", "genonly"))
+	}
+	return out
+}
+
+// XTwoGoPackages: every construct whose generated codec names the Go type of ANOTHER message, with that message in a different Go
+// package: root map / root list unwrap of foreign messages, root map of foreign list wrappers, a map of foreign wrappers beside
+// siblings, a flattened foreign child, foreign variants of a flattened and of a nested discriminated oneof. Generation-level unit
+// (C13 compiles both packages for every plugin subset, C14 compares the two Go plugins' files).
+func XTwoGoPackages() *spec.Spec {
+	common := &spec.File{Path: "x_twopkg_common.proto", Package: "vx_twopkg.common", GoPackage: "verifws/u/x_twopkg/common;common",
+		Messages: []*spec.Message{
+			spec.M("Quote", spec.F("symbol", "string"), spec.F("volume", "int64")),
+			spec.M("Bars", spec.Msg("bars", "Quote").Rep().Unw()),
+			spec.M("Geo", spec.F("lat", "double"), spec.F("lng", "double")),
+			spec.M("Note", spec.F("text", "string")),
+		}}
+	c := ".vx_twopkg.common."
+	api := &spec.File{Path: "x_twopkg.proto", Package: "vx_twopkg", Imports: []string{common.Path},
+		Messages: []*spec.Message{
+			spec.M("Req", spec.F("id", "string")),
+			spec.M("QuoteBook", spec.Msg("quotes", c+"Quote").Map().Unw()),
+			spec.M("QuoteList", spec.Msg("items", c+"Quote").Rep().Unw()),
+			spec.M("BarsByKey", spec.Msg("data", c+"Bars").Map().Unw()),
+			spec.M("Holder", spec.F("id", "string"), spec.Msg("series", c+"Bars").Map()),
+			spec.M("Place", spec.F("name", "string"), spec.Msg("geo", c+"Geo").FlatP("geo_")),
+			spec.M("FlatShape", spec.F("id", "string"), spec.Msg("geo", c+"Geo").In("kind"), spec.Msg("note", c+"Note").In("kind")).WithOneof(&spec.Oneof{Name: "kind", Config: true, Disc: "type", Flatten: true}),
+			spec.M("NestedShape", spec.F("id", "string"), spec.Msg("geo", c+"Geo").In("kind"), spec.Msg("note", c+"Note").In("kind")).WithOneof(&spec.Oneof{Name: "kind", Config: true, Disc: "type"}),
+		},
+		Services: []*spec.Service{spec.Svc("TwoPkgService", "/tp",
+			spec.RPC("GetBook", "Req", "QuoteBook", "POST", "/book"), spec.RPC("GetList", "Req", "QuoteList", "POST", "/list"), spec.RPC("GetBars", "Req", "BarsByKey", "POST", "/bars"),
+			spec.RPC("GetHolder", "Req", "Holder", "POST", "/holder"), spec.RPC("EchoPlace", "Place", "Place", "POST", "/place"),
+			spec.RPC("EchoFlat", "FlatShape", "FlatShape", "POST", "/flat"), spec.RPC("EchoNested", "NestedShape", "NestedShape", "POST", "/nested"),
+			spec.RPC("GetQuote", "Req", c+"Quote", "POST", "/quote"))}}
+	s2 := &spec.Spec{Name: "x_twopkg", Files: []*spec.File{common, api}}
+	return withCell(s2, "ext/unit=two_go_packages", "extended", "valid", "genonly", "multifile")
+}
+
+// XUnwrapCycles: unwrap wrappers that reach themselves - a root map unwrap whose values are the wrapper itself (a dictionary of
+// dictionaries), two such wrappers valued by each other, a root list unwrap of itself, and a wrapper whose value message holds a map
+// of the wrapper. Every generator must answer (C16) and what it emits must build (C13).
+func XUnwrapCycles() *spec.Spec {
+	msgs := []*spec.Message{
+		spec.M("Tree", spec.Msg("children", "Tree").Map().Unw()),
+		spec.M("ByRegion", spec.Msg("zones", "ByZone").Map().Unw()),
+		spec.M("ByZone", spec.Msg("regions", "ByRegion").Map().Unw()),
+		spec.M("Nest", spec.Msg("items", "Nest").Rep().Unw()),
+		spec.M("Shelf", spec.Msg("boxes", "Box").Map().Unw()),
+		spec.M("Box", spec.F("label", "string"), spec.Msg("shelves", "Shelf").Map()),
+		spec.M("Req", spec.F("id", "string")),
+	}
+	svc := spec.Svc("CycleService", "/cy", spec.RPC("GetTree", "Req", "Tree", "POST", "/tree"), spec.RPC("GetByRegion", "Req", "ByRegion", "POST", "/region"),
+		spec.RPC("GetNest", "Req", "Nest", "POST", "/nest"), spec.RPC("GetShelf", "Req", "Shelf", "POST", "/shelf"), spec.RPC("PutTree", "Tree", "Tree", "PUT", "/tree"))
+	f := &spec.File{Messages: msgs, Services: []*spec.Service{svc}}
+	return withCell(spec.One("x_unwrap_cycles", f), "ext/unit=unwrap_cycles", "extended", "valid", "genonly")
+}
+
 // XHeaderSpellingTypes: header-name spelling x header type - every type (string, integer, number, boolean, array, string with a
 // format) declared under a name in canonical MIME spelling, with an upper-case acronym, in lower case and in upper case; all
 // required, one RPC per spelling (net/http stores header names canonicalised: a look-up under the declared spelling must still
@@ -486,8 +570,12 @@ func XParamNameClashes() *spec.Spec {
 // integer) re-declared at method level in every way: stricter, same, relaxed to optional keeping the format, relaxed to an
 // optional plain string, required without format, another type, another format; plus a method that re-declares nothing.
 func XHeaderOverrideShapes() *spec.Spec {
-	id := func(typ, format string, req bool) *spec.Header { return &spec.Header{Name: "X-Request-ID", Type: typ, Format: format, Required: req} }
-	n := func(typ, format string, req bool) *spec.Header { return &spec.Header{Name: "X-Count", Type: typ, Format: format, Required: req} }
+	id := func(typ, format string, req bool) *spec.Header {
+		return &spec.Header{Name: "X-Request-ID", Type: typ, Format: format, Required: req}
+	}
+	n := func(typ, format string, req bool) *spec.Header {
+		return &spec.Header{Name: "X-Count", Type: typ, Format: format, Required: req}
+	}
 	msgs := []*spec.Message{spec.M("Req", spec.F("name", "string")), spec.M("Out", spec.F("ok", "bool"))}
 	rpc := func(name string, hs ...*spec.Header) *spec.Method {
 		return spec.RPC(name, "Req", "Out", "POST", "/"+strings.ToLower(name)).H(hs...)
@@ -557,7 +645,9 @@ func XProto2Basic() *spec.Spec {
 func XSharedTypesAcrossServiceFiles() *spec.Spec {
 	pkg := "vx_shared_svc_files"
 	common := &spec.File{Path: "x_shared_common.proto", Package: pkg,
-		Enums: []*spec.Enum{{Name: "Grade", Values: []*spec.EnumValue{{Name: "GRADE_UNSPECIFIED", Num: 0, Custom: spec.Str("none")}, {Name: "GRADE_A", Num: 1, Custom: spec.Str("a")}}}},
+		Enums: []*spec.Enum{{Name: "Grade", Values: []*spec.EnumValue{{Name: "GRADE_UNSPECIFIED", Num: 0, Custom: spec.Str("none")}, {Name: "GRADE_A", Num: 1, Custom: spec.Str("a")}}},
+			// declared out of numeric order, used by number in one service file and by name in the other
+			{Name: "Priority", Values: []*spec.EnumValue{{Name: "PRIORITY_UNSPECIFIED", Num: 0}, {Name: "PRIORITY_NORMAL", Num: 2}, {Name: "PRIORITY_HIGH", Num: 3}, {Name: "PRIORITY_LOW", Num: 1}}}},
 		Messages: []*spec.Message{
 			spec.M("TextBody", spec.F("text", "string")), spec.M("ImageBody", spec.F("url", "string"), spec.F("width", "int32")),
 			spec.M("Event", spec.F("id", "string"), spec.Msg("text", "TextBody").In("content"), spec.Msg("image", "ImageBody").In("content")).
@@ -568,10 +658,10 @@ func XSharedTypesAcrossServiceFiles() *spec.Spec {
 			spec.M("Amounts", spec.Msg("items", "Amount").Rep().Unw()),
 		}}
 	alpha := &spec.File{Path: "x_shared_alpha.proto", Package: pkg, Imports: []string{common.Path},
-		Messages: []*spec.Message{spec.M("AlphaReq", spec.F("id", "string")), spec.M("AlphaResp", spec.Msg("event", "Event"), spec.Msg("place", "Place"), spec.Msg("by_key", "Amounts").Map())},
+		Messages: []*spec.Message{spec.M("AlphaReq", spec.F("id", "string")), spec.M("AlphaResp", spec.Msg("event", "Event"), spec.Msg("place", "Place"), spec.Msg("by_key", "Amounts").Map(), spec.En("prio", "Priority").EEnc(spec.EncNumber))},
 		Services: []*spec.Service{spec.Svc("AlphaService", "/alpha", spec.RPC("GetAlpha", "AlphaReq", "AlphaResp", "POST", "/get"), spec.RPC("EchoEvent", "Event", "Event", "POST", "/event"))}}
 	beta := &spec.File{Path: "x_shared_beta.proto", Package: pkg, Imports: []string{common.Path},
-		Messages: []*spec.Message{spec.M("BetaReq", spec.F("id", "string")), spec.M("BetaResp", spec.Msg("events", "Event").Rep(), spec.Msg("amount", "Amount"))},
+		Messages: []*spec.Message{spec.M("BetaReq", spec.F("id", "string")), spec.M("BetaResp", spec.Msg("events", "Event").Rep(), spec.Msg("amount", "Amount"), spec.En("prio", "Priority"))},
 		Services: []*spec.Service{spec.Svc("BetaService", "/beta", spec.RPC("GetBeta", "BetaReq", "BetaResp", "POST", "/get"), spec.RPC("EchoPlace", "Place", "Place", "POST", "/place"))}}
 	s := &spec.Spec{Name: "x_shared_svc_files", Files: []*spec.File{common, alpha, beta}}
 	return withCell(s, "ext/unit=shared_types_across_service_files", "extended", "valid", "genonly", "multifile")
